@@ -278,8 +278,7 @@ func checkFlatten(c Case, r *vf.R) error {
 				twoInfl = true
 			}
 		}
-		_ = twoInfl
-		checkOrder := hasCurve
+		checkOrder := hasCurve && !r.Excluded("F03e", twoInfl && t > size/200)
 		// arc length along the dense sampling; the order may step back by features smaller than 4 t
 		// (tiny loops / overlapping flat ranges around inflection points are legitimately skipped)
 		cum := make([]float64, len(dense))
